@@ -47,6 +47,38 @@ def check_trial(prog: Program, sc, rec) -> list[dict]:
     return out
 
 
+def check_label_writers(prog: Program, L: Ledger, rule: str) -> None:
+    """labels and the unique-label cache are written together, by set_labels only (or by private helpers that nothing
+    but set_labels calls): a second writer lets the two disagree — a label no atom carries is offered, a label an atom
+    still carries is handed out again, a negative label becomes eligible."""
+    from ..normalize import flat
+
+    dm = prog.cls("DisplacementMove")
+    setl = dm.methods.get("set_labels")
+    if setl is None:
+        raise AnalysisError("DisplacementMove.set_labels missing")
+    helpers = set(getattr(flat(prog, setl, dm), "inlined", []))
+    for hq in sorted(helpers):
+        nm = hq.split(".")[-1]
+        for fi_ in prog.iter_functions():
+            if fi_ is setl or fi_.qualname in helpers:
+                continue
+            if any((isinstance(c.func, ast.Attribute) and c.func.attr == nm) or (isinstance(c.func, ast.Name) and c.func.id == nm) for c in calls_in(fi_.node)):
+                helpers.discard(hq)
+    nw = 0
+    for fi in prog.iter_functions():
+        for n in walk_no_nested(fi.node):
+            tg = n.targets if isinstance(n, ast.Assign) else ([n.target] if isinstance(n, (ast.AnnAssign, ast.AugAssign)) else [])
+            for t in tg:
+                base = t.value if isinstance(t, ast.Subscript) else t
+                if isinstance(base, ast.Attribute) and base.attr in ("labels", "unique_labels") and not norm(base).startswith(("context.", "self.context.")):
+                    nw += 1
+                    L.check(fi is setl or fi.qualname in helpers, rule, f"{fi.qualname}:writes-{base.attr}", f"{fi.module.relpath}:{n.lineno}",
+                            f"`{norm(n)[:80]}` writes {base.attr} outside set_labels: labels and unique_labels can disagree",
+                            "a stale unique_labels offers a label no atom carries, hides one that an atom still carries (the next inserted particle gets it again) or admits a negative label", norm(n)[:100])
+    L.floor("writers of labels/unique_labels", nw, 2)
+
+
 def run(prog: Program, L: Ledger) -> None:
     L.explanation = (
         "C11 decided by dataflow and CFG rules on moves/displacement.py: the value handed to set_positions is sliced back to its "
@@ -241,18 +273,7 @@ def run(prog: Program, L: Ledger) -> None:
         L.check(bad is None, "D2", "DisplacementMove.set_labels:filter", f"{rel}:{ul[0].lineno}",
                 f"eligibility filter `{norm(pred)}` is not `labels >= 0`" + (f": label {bad[0]} is {'kept' if bad[1] else 'dropped'}" if bad else ""),
                 (f"label {bad[0]}" if bad else ""), norm(pred))
-    # who writes labels / unique_labels
-    nw = 0
-    for fi in prog.iter_functions():
-        for n in walk_no_nested(fi.node):
-            tg = n.targets if isinstance(n, ast.Assign) else ([n.target] if isinstance(n, (ast.AnnAssign, ast.AugAssign)) else [])
-            for t in tg:
-                base = t.value if isinstance(t, ast.Subscript) else t
-                if isinstance(base, ast.Attribute) and base.attr in ("labels", "unique_labels") and not norm(base).startswith(("context.", "self.context.")):
-                    nw += 1
-                    L.check(fi is setl, "D2", f"{fi.qualname}:writes-{base.attr}", f"{fi.module.relpath}:{n.lineno}",
-                            f"`{norm(n)[:80]}` writes {base.attr} outside set_labels: labels and unique_labels can disagree", "a stale unique_labels offers a label no atom carries (or hides one)", norm(n)[:100])
-    L.floor("writers of labels/unique_labels", nw, 2)
+    check_label_writers(prog, L, "D2")
 
     # ------------------------------------------------------------------ D3
     L.check(ok_d3, "D3", "DisplacementMove.__call__:failure-return", where_c, f"with no eligible label the move does not return register_failure() before any draw, write or attempt: {why_d3}",
